@@ -1873,14 +1873,20 @@ class NoteRestToken(ComplexToken):
         # Build agnostic pitch (if requested and applicable)
         agnostic_pitch_representation = None
         if convert_pitch_to_agnostic_fn is not None:
-            only_pitches_and_alterations = [
+            # The staff position depends on the pitch letters only: the accidental (and its display marks,
+            # e.g. the natural 'n' or a cautionary 'X') is carried over exactly as it was written.
+            only_pitches = [
                 s for s in pitch_duration_tokens_sorted
-                if s.category in {TokenCategory.PITCH, TokenCategory.ALTERATION}
+                if s.category == TokenCategory.PITCH
             ]
-            if only_pitches_and_alterations:
+            alteration_encs = [
+                s.encoding for s in pitch_duration_tokens_sorted
+                if s.category == TokenCategory.ALTERATION
+            ]
+            if only_pitches:
                 agnostic_pitch_representation = convert_pitch_to_agnostic_fn(
-                    "".join(s.encoding for s in only_pitches_and_alterations)
-                )
+                    "".join(s.encoding for s in only_pitches)
+                ) + "".join(alteration_encs)
 
         if agnostic_pitch_representation is not None:
             # When agnostic, add the duration part explicitly, then the agnostic pitch
